@@ -48,16 +48,33 @@ def assemble(u, vxout, outpath):
             '// GENERATED on every run by /verif/lib/verus_unit.py from %s and /repo working tree. Do not edit.' % os.path.relpath(u.path, VERIF),
             'use vstd::prelude::*;']
     parts.append('\n'.join(head) + '\n')
-    for f in u.prelude:
+    uses = set()
+    for f in ['prelude/vx_rules.rs'] + [x for x in u.prelude if x != 'prelude/vx_rules.rs']:
         frag = _read_fragment(f)
         # @omit NAME...: opaque stand-ins of the shared preludes that this unit replaces by extracted real items
         for name in getattr(u, 'omit', []):
             frag = re.sub(r'(opaque!\([^)]*?)\b%s\b\s*,?\s*' % re.escape(name), r'\1', frag)
             frag = '\n'.join(l for l in frag.split('\n') if not re.search(r'pub struct Ex\w*\(%s\);' % re.escape(name), l))
+        frag = re.sub(r'(opaque!\([^)]*?),\s*\)', r'\1)', frag)
+        # top-level `use` lines of the fragments are collected, split into single names and emitted once
+        kept = []
+        for l in frag.split('\n'):
+            m1 = re.match(r'^use ([\w:]+)::\{([^}]*)\};\s*$', l)
+            m2 = re.match(r'^use ([\w:]+);\s*$', l)
+            if m1:
+                for n in m1.group(2).split(','):
+                    if n.strip():
+                        uses.add('use %s::%s;' % (m1.group(1), n.strip()))
+            elif m2:
+                uses.add('use %s;' % m2.group(1))
+            else:
+                kept.append(l)
+        frag = '\n'.join(kept)
         parts.append('// ======== prelude: %s\n' % f + frag)
     for f in u.specs:
         parts.append('// ======== specs: %s\n' % f + _read_fragment(f))
     parts.append('// ======== extracted from the working tree by vx (rules R1..R12 only)\nverus! {\n')
+    parts.insert(1, '\n'.join(sorted(uses)) + '\n')
     text = '\n'.join(parts)
     ranges = []
     line = text.count('\n') + 1
@@ -143,7 +160,8 @@ def classify(blocks, ranges, labels, unit_name):
         if any(k in msg for k in UNDECIDED_MSGS):
             undecided.append({'msg': msg, 'where': item_at(ranges, b['primary'] or 0), 'text': '\n'.join(b['text'])})
             continue
-        if any(k in msg for k in VERIFICATION_MSGS):
+        is_rustc = bool(b['text']) and re.match(r'\s*error\[E\d+\]', b['text'][0]) is not None
+        if not is_rustc and any(k in msg for k in VERIFICATION_MSGS):
             lab = None
             cand = ([b['primary']] if b['primary'] else []) + b['lines']
             for ln in cand:
